@@ -39,6 +39,7 @@ func (s *c11Store) Open(name string) (hackpadfs.File, error) {
 	return s.fs.Open(name)
 }
 func (s *c11Store) Mkdir(name string, perm hackpadfs.FileMode) error {
+	verifSched("store.mkdir")
 	return s.fs.Mkdir(name, perm)
 }
 func (s *c11Store) OpenFile(name string, flag int, perm hackpadfs.FileMode) (hackpadfs.File, error) {
@@ -215,9 +216,19 @@ func VerifC11Concurrent() {
 	different := verifChoice("targets", 2) == 1
 	names := []string{"f", "f", "f"}
 	datas := [][]byte{data, data, data}
+	nested := false
 	if different {
 		verifTag("targets", "different-files")
 		names = []string{"f", "g", "h"}
+		if verifChoice("nested-dir", 2) == 1 {
+			// the files share a directory two levels down that the cache store does not have yet: both fills
+			// create it (through the MkdirAll fall-back when the store offers only Mkdir)
+			nested = true
+			verifTag("targets", "different-files-in-a-new-directory")
+			names = []string{"a/b/f", "a/b/g", "a/b/h"}
+			verifAssert(src.MkdirAll("a/b", 0755) == nil, "MkdirAll a/b")
+			verifAssert(hackpadfs.WriteFullFile(src, names[0], data, 0644) == nil, "WriteFullFile")
+		}
 		for i := 1; i < 3; i++ {
 			datas[i] = make([]byte, size)
 			for k := range datas[i] {
@@ -226,7 +237,7 @@ func VerifC11Concurrent() {
 			verifAssert(hackpadfs.WriteFullFile(src, names[i], datas[i], 0644) == nil, "WriteFullFile")
 		}
 	}
-	source := &c10Source{fs: src, opens: map[string]int{}, faultRead: -1, watch: "f"}
+	source := &c10Source{fs: src, opens: map[string]int{}, faultRead: -1, watch: names[0]}
 	if verifParam("FAULTS") != 0 && !different {
 		// optionally the first fill fails (its source read fails once): the openers queued behind it fill again,
 		// still one at a time
@@ -237,7 +248,13 @@ func VerifC11Concurrent() {
 	}
 	storeMem, err := mem.NewFS()
 	verifAssert(err == nil, "NewFS")
-	cfs, err := cache.NewReadOnlyFS(source, c11StoreRemovable{&c11Store{fs: storeMem, faultAt: -1}}, cache.ReadOnlyOptions{})
+	var cfs *cache.ReadOnlyFS
+	if nested {
+		// the minimal store: Open, OpenFile, Mkdir (no MkdirAll, no Stat, no Remove)
+		cfs, err = cache.NewReadOnlyFS(source, &c11Store{fs: storeMem, faultAt: -1}, cache.ReadOnlyOptions{})
+	} else {
+		cfs, err = cache.NewReadOnlyFS(source, c11StoreRemovable{&c11Store{fs: storeMem, faultAt: -1}}, cache.ReadOnlyOptions{})
+	}
 	verifAssert(err == nil, "NewReadOnlyFS")
 	n := verifParam("GOROUTINES")
 	results := make([][]byte, n)
